@@ -106,6 +106,36 @@ func LikeMatch(s, pat string) bool {
 	return rec(0, 0)
 }
 
+// normNum: documents built by Go programs (not decoded from JSON) hold numbers of every Go numeric
+// type; the reference computes on their exact float64 value (callers keep them below 2^53).
+func normNum(v any) any {
+	switch t := v.(type) {
+	case int:
+		return float64(t)
+	case int8:
+		return float64(t)
+	case int16:
+		return float64(t)
+	case int32:
+		return float64(t)
+	case int64:
+		return float64(t)
+	case uint:
+		return float64(t)
+	case uint8:
+		return float64(t)
+	case uint16:
+		return float64(t)
+	case uint32:
+		return float64(t)
+	case uint64:
+		return float64(t)
+	case float32:
+		return float64(t)
+	}
+	return v
+}
+
 func isInt(f float64) bool { return f == math.Trunc(f) && math.Abs(f) < (1<<53) }
 
 // Eval evaluates e on row.  ok == false: the answer is unspecified (NULL operand outside IS,
@@ -113,7 +143,7 @@ func isInt(f float64) bool { return f == math.Trunc(f) && math.Abs(f) < (1<<53) 
 func Eval(e Expr, row map[string]any, env *Env) (v any, ok bool) {
 	switch e := e.(type) {
 	case Col:
-		return lookup(row, e.Name), true
+		return normNum(lookup(row, e.Name)), true
 	case Lit:
 		if i, isInt := e.V.(int); isInt {
 			return float64(i), true
